@@ -297,6 +297,27 @@ Proof.
   - destruct (Hr x y) as [E|[E|E]]; lia.
 Qed.
 
+Lemma plain_float_eq x y : plainb (VFloat x) = true -> plainb (VFloat y) = true -> fcompare x y = 0 -> x = y.
+Proof.
+  simpl. rewrite !andb_true_iff, !negb_true_iff, !Z.leb_le, !Z.ltb_lt, !Z.eqb_neq.
+  intros [[[Lx Ux] Nx] Zx] [[[Ly Uy] Ny] Zy]. unfold fcompare. rewrite Nx, Ny.
+  unfold zcmp. destruct (Z.ltb_spec (f_key x) (f_key y)); [discriminate|].
+  destruct (Z.ltb_spec (f_key y) (f_key x)); [discriminate|]. intros _.
+  assert (K : f_key x = f_key y) by lia. clear H H0.
+  unfold f_key, f_neg, f_mag in K. rewrite (Z.mod_small x two64), (Z.mod_small y two64) in K by lia.
+  unfold two63, two64 in *.
+  destruct (Z.leb_spec 9223372036854775808 x), (Z.leb_spec 9223372036854775808 y);
+    pose proof (Z.mod_pos_bound x 9223372036854775808 ltac:(lia));
+    pose proof (Z.mod_pos_bound y 9223372036854775808 ltac:(lia));
+    pose proof (Z.div_mod x 9223372036854775808 ltac:(lia));
+    pose proof (Z.div_mod y 9223372036854775808 ltac:(lia));
+    assert (x / 9223372036854775808 = 0 \/ x / 9223372036854775808 = 1) by
+      (assert (0 <= x / 9223372036854775808 < 2) by (split; [apply Z.div_pos; lia|apply Z.div_lt_upper_bound; lia]); lia);
+    assert (y / 9223372036854775808 = 0 \/ y / 9223372036854775808 = 1) by
+      (assert (0 <= y / 9223372036854775808 < 2) by (split; [apply Z.div_pos; lia|apply Z.div_lt_upper_bound; lia]); lia);
+    lia.
+Qed.
+
 Lemma plain_vcompare_eq : forall a b, plainb a = true -> plainb b = true -> vcompare a b = 0 -> a = b.
 Proof.
   induction a as [ | x | x | x | x | x lx | x | l IH | l IH | l IH ] using value_ind'; intros b Pa Pb H;
@@ -304,6 +325,7 @@ Proof.
     try (exfalso; rewrite vcompare_tid_ne in H by (simpl; lia); simpl in H; discriminate).
   - reflexivity.
   - rewrite vc_int in H. f_equal. revert H. zcmp_tac.
+  - rewrite vc_float in H. f_equal. apply plain_float_eq; assumption.
   - rewrite vc_bool in H. f_equal. destruct x, b; try reflexivity; discriminate.
   - rewrite vc_str in H. f_equal. apply bytes_cmp_eq. exact H.
   - rewrite vc_list in H. f_equal. simpl in Pa, Pb. rewrite forallb_forall in Pa, Pb. rewrite Forall_forall in IH.
@@ -835,10 +857,13 @@ Proof.
   intros Pi Pr H. unfold eval_items in H. destruct (mapM _ items) as [vs| |] eqn:M; simpl in H; inv H.
   assert (F : Forall prow vs).
   { rewrite forallb_forall in Pi. eapply mapM_forall with (P := fun i => plain_item i = true); [| apply Forall_forall; exact Pi | exact M].
-    intros [e a|f d a al|] y Pit H; simpl in H.
+    intros [e a|f d a al| |q] y Pit H; simpl in H.
     - destruct (eval s e r) eqn:E; simpl in H; inv H. unfold prow. simpl. rewrite (eval_plain s e r a0 Pr Pit E). reflexivity.
     - discriminate.
-    - inv H. exact Pr. }
+    - inv H. exact Pr.
+    - inv H. unfold prow, plain_row in *. rewrite forallb_forall in *. intros v Hv.
+      apply in_map_iff in Hv. destruct Hv as [[f v'] [<- Hv]]. apply filter_In in Hv. destruct Hv as [Hv _].
+      apply in_combine_r in Hv. auto. }
   clear M. unfold prow, plain_row in *. induction F; simpl; [reflexivity|]. rewrite forallb_app, H, IHF. reflexivity.
 Qed.
 
@@ -963,24 +988,8 @@ Scheme query_mut := Induction for query Sort Prop
   with source_mut := Induction for source Sort Prop.
 Combined Scheme query_source_ind from query_mut, source_mut.
 
-Lemma group_cols_nostar items keys : forall n cols s, group_cols items keys n = Ok cols -> out_schema s items = out_schema [] items.
-Proof.
-  induction items as [|i t IH]; intros n cols s H; [reflexivity|]. unfold out_schema in *. simpl in *.
-  destruct i as [e a|f d a al|]; simpl in *; try discriminate.
-  - destruct (find_key e keys 0); try discriminate. destruct (group_cols t keys n) eqn:E; simpl in H; try discriminate.
-    f_equal. eapply IH. eassumption.
-  - assert (exists cs, group_cols t keys (S n) = Ok cs) as [cs E].
-    { destruct f, d; try discriminate; destruct (group_cols t keys (S n)); simpl in H; try discriminate; eexists; reflexivity. }
-    f_equal. eapply IH. eassumption.
-Qed.
-
-Lemma eval_items_star s rows : mapM (eval_items s [IStar]) rows = Ok rows.
-Proof.
-  induction rows as [|r t IH]; simpl; [reflexivity|]. rewrite IH. unfold eval_items. simpl. rewrite app_nil_r. reflexivity.
-Qed.
-
 Lemma single_star_eq items : single_star items = true -> items = [IStar].
-Proof. destruct items as [|[| |] [|]]; simpl; try discriminate. reflexivity. Qed.
+Proof. destruct items as [|[| | |] [|]]; simpl; try discriminate. reflexivity. Qed.
 
 Lemma aggs_of_plain items : forallb plain_item items = true -> forallb (fun a : aggcall => plain_expr (snd a)) (aggs_of items) = true.
 Proof.
@@ -988,48 +997,64 @@ Proof.
   unfold aggs_of in *. simpl. destruct i; simpl; auto. simpl in Hi. rewrite Hi. simpl. auto.
 Qed.
 
+(* the Map of Variables over the GroupBy node reads the columns group_cols says, when every name resolves to
+   its column *)
+Lemma list_eqb_eq {A} (eqb : A -> A -> bool) : (forall a b, eqb a b = true -> a = b) ->
+  forall l l', list_eqb eqb l l' = true -> l = l'.
+Proof.
+  intros E. induction l as [|x t IH]; intros [|y t'] H; simpl in H; try discriminate; [reflexivity|].
+  apply andb_true_iff in H. destruct H as [H1 H2]. f_equal; auto.
+Qed.
+Lemma name_eqb_eq a b : name_eqb a b = true -> a = b.
+Proof. apply list_eqb_eq. intros x y. apply Z.eqb_eq. Qed.
+Lemma field_eqb_eq a b : field_eqb a b = true -> a = b.
+Proof.
+  destruct a as [qa na], b as [qb nb]. unfold field_eqb. simpl. intro H. apply andb_true_iff in H. destruct H as [H1 H2].
+  apply name_eqb_eq in H2. subst. f_equal. destruct qa, qb; simpl in H1; try discriminate; [|reflexivity].
+  apply name_eqb_eq in H1. subst. reflexivity.
+Qed.
+Lemma schema_eqb_eq a b : schema_eqb a b = true -> a = b.
+Proof. apply list_eqb_eq. exact field_eqb_eq. Qed.
+
+Lemma var_items_project s names : forall cols r, resolves_to s names cols = true ->
+  eval_items s (map (fun n => IExpr (ECol None n) None) names) r = project cols r.
+Proof.
+  unfold eval_items, project.
+  induction names as [|n t IH]; intros [|c cs] r H; simpl in H; try discriminate; [reflexivity|].
+  apply andb_true_iff in H. destruct H as [H1 H2]. specialize (IH cs r H2).
+  simpl. destruct (resolve s None n) as [i| |]; try discriminate. apply Nat.eqb_eq in H1. subst i. simpl.
+  destruct (nth_error r c); simpl; [|reflexivity].
+  destruct (mapM (fun i : item => eval_item s i r) (map (fun n0 => IExpr (ECol None n0) None) t)) as [vs| |];
+    destruct (mapM (fun c0 => match nth_error r c0 with Some v0 => Ok v0 | None => Panic p_index end) cs) as [ws| |];
+    simpl in *; try discriminate; try reflexivity; inv IH; reflexivity.
+Qed.
+
+Lemma mapM_ext {A B} (f g : A -> outcome B) l : (forall x, f x = g x) -> mapM f l = mapM g l.
+Proof. intro H. induction l as [|x t IH]; simpl; [reflexivity|]. rewrite H, IH. reflexivity. Qed.
+
 Lemma obind_assoc {A B C} (x : outcome A) (f : A -> outcome B) (g : B -> outcome C) :
   obind (obind x f) g = obind x (fun a => obind (f a) g).
 Proof. destruct x; reflexivity. Qed.
 
-Lemma plan_of_q_unfold pinned dist items from wh gb ob lim :
-  plan_of_q pinned (Q dist items from wh gb ob lim) =
-  match ob, lim with
-  | [], None => (if dist then PDistinct (if grouping pinned items gb
-                 then PGroupMap gb (aggs_of items) (group_cols items gb 0) (out_schema [] items)
-                        (match wh with Some e => PFilter e (plan_of_src pinned from) | None => plan_of_src pinned from end)
-                 else if single_star items then (match wh with Some e => PFilter e (plan_of_src pinned from) | None => plan_of_src pinned from end)
-                      else PMap items (match wh with Some e => PFilter e (plan_of_src pinned from) | None => plan_of_src pinned from end))
-                 else (if grouping pinned items gb
-                 then PGroupMap gb (aggs_of items) (group_cols items gb 0) (out_schema [] items)
-                        (match wh with Some e => PFilter e (plan_of_src pinned from) | None => plan_of_src pinned from end)
-                 else if single_star items then (match wh with Some e => PFilter e (plan_of_src pinned from) | None => plan_of_src pinned from end)
-                      else PMap items (match wh with Some e => PFilter e (plan_of_src pinned from) | None => plan_of_src pinned from end)))
-  | _, _ => POrderLimit ob lim (if dist then PDistinct (if grouping pinned items gb
-                 then PGroupMap gb (aggs_of items) (group_cols items gb 0) (out_schema [] items)
-                        (match wh with Some e => PFilter e (plan_of_src pinned from) | None => plan_of_src pinned from end)
-                 else if single_star items then (match wh with Some e => PFilter e (plan_of_src pinned from) | None => plan_of_src pinned from end)
-                      else PMap items (match wh with Some e => PFilter e (plan_of_src pinned from) | None => plan_of_src pinned from end))
-                 else (if grouping pinned items gb
-                 then PGroupMap gb (aggs_of items) (group_cols items gb 0) (out_schema [] items)
-                        (match wh with Some e => PFilter e (plan_of_src pinned from) | None => plan_of_src pinned from end)
-                 else if single_star items then (match wh with Some e => PFilter e (plan_of_src pinned from) | None => plan_of_src pinned from end)
-                      else PMap items (match wh with Some e => PFilter e (plan_of_src pinned from) | None => plan_of_src pinned from end)))
-  end.
+Definition sel_plan (pinned pn : bool) (items : list item) (gb : list expr) (p1 : plan) : plan :=
+  if grouping pinned items gb then PGroupMap gb (aggs_of items) (group_info pn items gb) p1
+  else if single_star items then p1 else PMap items p1.
+
+Lemma plan_of_q_unfold pinned pn dist items from wh gb ob lim :
+  plan_of_q pinned pn (Q dist items from wh gb ob lim) =
+  let p1 := match wh with Some e => PFilter e (plan_of_src pinned pn from) | None => plan_of_src pinned pn from end in
+  let p3 := if dist then PDistinct (sel_plan pinned pn items gb p1) else sel_plan pinned pn items gb p1 in
+  match ob, lim with [], None => p3 | _, _ => POrderLimit ob lim p3 end.
 Proof. reflexivity. Qed.
 
 Lemma den_q_unfold tables ctes dist items from wh gb ob lim :
   den_q tables ctes (Q dist items from wh gb ob lim) =
       obind (den_src tables ctes from) (fun src =>
       obind (filter_rows (rsch src) wh (rrows src)) (fun rows =>
-      obind (if grouping false items gb
-             then obind (group_cols items gb 0) (fun cols =>
-                  obind (mapM (eval_keyed (rsch src) gb (aggs_of items)) rows) (fun kl =>
-                  mapM (project cols) (den_group (aggs_of items) kl)))
-             else mapM (eval_items (rsch src) items) rows) (fun rows1 =>
-      obind (den_order (out_schema (rsch src) items) ob (if dist then den_distinct rows1 else rows1)) (fun rows3 =>
+      obind (sel_den (rsch src) items gb rows) (fun r1 =>
+      obind (den_order (rsch r1) ob (if dist then den_distinct (rrows r1) else rrows r1)) (fun rows3 =>
       obind (den_limit lim rows3) (fun rows4 =>
-      Ok (mkrel (out_schema (rsch src) items) rows4)))))).
+      Ok (mkrel (rsch r1) rows4)))))).
 Proof. reflexivity. Qed.
 
 Lemma den_src_table tables ctes t alias :
@@ -1062,90 +1087,85 @@ Section Main.
     specialize (Pdb nr H). unfold plain_rel in Pdb. apply prows_iff. exact Pdb.
   Qed.
 
-  Definition body (items : list item) (gb : list expr) (s : schema) (rows : list row) : outcome (list row) :=
-    if grouping false items gb
-    then obind (group_cols items gb 0) (fun cols =>
-         obind (mapM (eval_keyed s gb (aggs_of items)) rows) (fun kl =>
-         mapM (project cols) (den_group (aggs_of items) kl)))
-    else mapM (eval_items s items) rows.
-
-  Lemma body_plain items gb s rows rows' : forallb plain_item items = true -> forallb plain_expr gb = true ->
-    Forall prow rows -> body items gb s rows = Ok rows' -> Forall prow rows'.
+  Lemma sel_den_plain items gb s rows r1 : forallb plain_item items = true -> forallb plain_expr gb = true ->
+    Forall prow rows -> sel_den s items gb rows = Ok r1 -> Forall prow (rrows r1).
   Proof.
-    intros Pi Pg P H. unfold body in H. destruct (grouping false items gb).
-    - destruct (group_cols items gb 0) as [cols| |]; simpl in H; try discriminate.
+    intros Pi Pg P H. unfold sel_den in H. destruct (grouping false items gb).
+    - unfold group_sel_den in H. destruct (group_info false items gb) as [gi| |]; simpl in H; try discriminate.
       destruct (mapM _ rows) as [kl| |] eqn:M; simpl in H; try discriminate.
       assert (PK : Forall (fun kr : keyed => plain_vals (fst kr) /\ plain_vals (snd kr)) kl).
       { eapply mapM_forall; [|exact P|exact M]. intros r kr Pr E.
         exact (eval_keyed_plain s gb (aggs_of items) r kr Pg (aggs_of_plain items Pi) Pr E). }
-      eapply mapM_forall; [|exact (den_group_plain (aggs_of items) kl PK)|exact H].
-      intros r r' Pr E. exact (project_plain cols r r' Pr E).
-    - eapply mapM_forall; [|exact P|exact H]. intros r r' Pr E. exact (eval_items_plain s items r r' Pi Pr E).
+      destruct (mapM (project (gi_cols gi)) _) as [rows1| |] eqn:M2; simpl in H; inv H. simpl.
+      eapply mapM_forall; [|exact (den_group_plain (aggs_of items) kl PK)|exact M2].
+      intros r r' Pr E. exact (project_plain (gi_cols gi) r r' Pr E).
+    - destruct (single_star items); [inv H; exact P|].
+      unfold map_sel in H. destruct (out_schema false s items); simpl in H; try discriminate.
+      destruct (mapM _ rows) as [rows1| |] eqn:M; simpl in H; inv H. simpl.
+      eapply mapM_forall; [|exact P|exact M]. intros r r' Pr E. exact (eval_items_plain s items r r' Pi Pr E).
   Qed.
 
   Lemma stage2 ctes p1 items gb : forallb plain_item items = true -> forallb plain_expr gb = true ->
-    (forall r1, run_plan tables ctes p1 = Ok r1 -> Forall prow (rrows r1)) ->
-    run_plan tables ctes
-      (if grouping false items gb
-       then PGroupMap gb (aggs_of items) (group_cols items gb 0) (out_schema [] items) p1
-       else if single_star items then p1 else PMap items p1) =
-    obind (run_plan tables ctes p1) (fun r1 =>
-    obind (body items gb (rsch r1) (rrows r1)) (fun rows1 => Ok (mkrel (out_schema (rsch r1) items) rows1))).
+    (if grouping false items gb then group_names_ok items gb else true) = true ->
+    (forall r1, run_plan tables false ctes p1 = Ok r1 -> Forall prow (rrows r1)) ->
+    run_plan tables false ctes (sel_plan false false items gb p1) =
+    obind (run_plan tables false ctes p1) (fun r1 => sel_den (rsch r1) items gb (rrows r1)).
   Proof.
-    intros Pi Pg P1. unfold body. destruct (grouping false items gb) eqn:G.
-    - simpl. destruct (run_plan tables ctes p1) as [r1| |] eqn:E; simpl; try reflexivity.
-      destruct (group_cols items gb 0) as [cols| |] eqn:GC; simpl; try reflexivity.
+    intros Pi Pg NOK P1. unfold sel_plan, sel_den. destruct (grouping false items gb) eqn:G.
+    - simpl. destruct (run_plan tables false ctes p1) as [r1| |] eqn:E; simpl; try reflexivity.
+      unfold group_sel_den. unfold group_names_ok in NOK.
+      destruct (group_info false items gb) as [gi| |] eqn:GI; simpl; try reflexivity.
       destruct (mapM _ (rrows r1)) as [kl| |] eqn:M; simpl; try reflexivity.
       assert (PK : plain_keyed kl).
       { eapply mapM_forall; [|exact (P1 r1 eq_refl)|exact M]. intros r kr Pr EK.
         exact (proj2 (eval_keyed_plain (rsch r1) gb (aggs_of items) r kr Pg (aggs_of_plain items Pi) Pr EK)). }
       rewrite (group_node_correct _ kl PK). simpl.
-      rewrite (group_cols_nostar items gb 0 cols (rsch r1) GC). reflexivity.
+      apply andb_true_iff in NOK. destruct NOK as [RES SCH].
+      unfold map_sel. destruct (out_schema false (group_schema gi) (var_items gi)) as [outs| |]; try discriminate.
+      apply schema_eqb_eq in SCH. subst outs. simpl.
+      rewrite (mapM_ext _ (project (gi_cols gi))); [reflexivity|].
+      intro r. apply var_items_project. exact RES.
     - destruct (single_star items) eqn:SS.
-      + apply single_star_eq in SS. subst items.
-        destruct (run_plan tables ctes p1) as [r1| |]; simpl; try reflexivity.
-        rewrite eval_items_star. simpl. unfold out_schema. simpl. rewrite app_nil_r. destruct r1; reflexivity.
+      + destruct (run_plan tables false ctes p1) as [[? ?]| |]; reflexivity.
       + reflexivity.
   Qed.
 
   Theorem main :
     (forall q ctes, good_ctes ctes -> frag_q q = true ->
-       run_plan tables ctes (plan_of_q false q) = den_q tables ctes q /\
+       run_plan tables false ctes (plan_of_q false false q) = den_q tables ctes q /\
        forall r, den_q tables ctes q = Ok r -> Forall prow (rrows r)) /\
     (forall s ctes, good_ctes ctes -> frag_src s = true ->
-       run_plan tables ctes (plan_of_src false s) = den_src tables ctes s /\
+       run_plan tables false ctes (plan_of_src false false s) = den_src tables ctes s /\
        forall r, den_src tables ctes s = Ok r -> Forall prow (rrows r)).
   Proof.
     apply query_source_ind.
     - (* Q *)
       intros dist items from IHs wh gb ob lim ctes G F. simpl in F.
-      repeat rewrite andb_true_iff in F. destruct F as [[[[[[Fi Fs] Fw] Fg] Fo] Fl] _].
+      repeat rewrite andb_true_iff in F. destruct F as [[[[[[[Fn Fi] Fs] Fw] Fg] Fo] Fl] _].
       destruct (IHs ctes G Fs) as [IH1 IH2]. clear IHs.
-      rewrite plan_of_q_unfold, den_q_unfold.
-      set (p0 := plan_of_src false from) in *.
+      rewrite plan_of_q_unfold, den_q_unfold. cbv zeta.
+      set (p0 := plan_of_src false false from) in *.
       set (p1 := match wh with Some e => PFilter e p0 | None => p0 end).
       (* stage 1: source and WHERE *)
-      assert (S1 : run_plan tables ctes p1 =
+      assert (S1 : run_plan tables false ctes p1 =
                    obind (den_src tables ctes from) (fun src =>
                    obind (filter_rows (rsch src) wh (rrows src)) (fun rows => Ok (mkrel (rsch src) rows)))).
       { unfold p1. destruct wh as [e|]; simpl; rewrite IH1; destruct (den_src tables ctes from) as [src| |]; simpl; try reflexivity.
         - rewrite filter_node_eq. reflexivity.
         - destruct src; reflexivity. }
-      assert (P1 : forall r1, run_plan tables ctes p1 = Ok r1 -> Forall prow (rrows r1)).
+      assert (P1 : forall r1, run_plan tables false ctes p1 = Ok r1 -> Forall prow (rrows r1)).
       { intros r1 H. rewrite S1 in H. destruct (den_src tables ctes from) as [src| |] eqn:E; simpl in H; try discriminate.
         destruct (filter_rows (rsch src) wh (rrows src)) as [rows| |] eqn:FR; simpl in H; inv H. simpl.
         exact (filter_rows_plain _ _ _ _ (IH2 src eq_refl) FR). }
       (* stage 2: select list / grouping *)
-      pose proof (stage2 ctes p1 items gb Fi Fg P1) as S2.
-      set (p2 := if grouping false items gb
-                 then PGroupMap gb (aggs_of items) (group_cols items gb 0) (out_schema [] items) p1
-                 else if single_star items then p1 else PMap items p1) in *.
+      pose proof (stage2 ctes p1 items gb Fi Fg Fn P1) as S2.
+      set (p2 := sel_plan false false items gb p1) in *.
       set (p3 := if dist then PDistinct p2 else p2).
-      assert (S3 : run_plan tables ctes p3 =
-                   obind (run_plan tables ctes p2) (fun r => Ok (mkrel (rsch r) (if dist then den_distinct (rrows r) else rrows r)))).
+      assert (S3 : run_plan tables false ctes p3 =
+                   obind (run_plan tables false ctes p2) (fun r => Ok (mkrel (rsch r) (if dist then den_distinct (rrows r) else rrows r)))).
       { unfold p3. destruct dist; simpl.
-        - destruct (run_plan tables ctes p2); simpl; try reflexivity. rewrite distinct_node_eq. reflexivity.
-        - destruct (run_plan tables ctes p2) as [[? ?]| |]; reflexivity. }
+        - destruct (run_plan tables false ctes p2); simpl; try reflexivity. rewrite distinct_node_eq. reflexivity.
+        - destruct (run_plan tables false ctes p2) as [[? ?]| |]; reflexivity. }
       (* stage 4: ORDER BY / LIMIT *)
       set (F4 := fun r : rel =>
                    match ob with
@@ -1153,20 +1173,19 @@ Section Main.
                    | _ => obind (mapM (eval_okey (rsch r) ob) (rrows r)) (fun its =>
                           obind (ost_node lim its) (fun rows => Ok (mkrel (rsch r) rows)))
                    end).
-      assert (S4 : run_plan tables ctes (match ob, lim with [], None => p3 | _, _ => POrderLimit ob lim p3 end) =
-                   obind (run_plan tables ctes p3) F4).
+      assert (S4 : run_plan tables false ctes (match ob, lim with [], None => p3 | _, _ => POrderLimit ob lim p3 end) =
+                   obind (run_plan tables false ctes p3) F4).
       { unfold F4. destruct ob; [destruct lim|]; simpl; try reflexivity.
-        destruct (run_plan tables ctes p3) as [[? ?]| |]; reflexivity. }
+        destruct (run_plan tables false ctes p3) as [[? ?]| |]; reflexivity. }
       rewrite S4, S3, S2, S1. clear S4 S3 S2 P1 S1.
       (* the relational side, stage by stage *)
       destruct (den_src tables ctes from) as [src| |] eqn:ES; simpl; [|split; [reflexivity|discriminate]..].
       destruct (filter_rows (rsch src) wh (rrows src)) as [rows| |] eqn:FR; simpl; [|split; [reflexivity|discriminate]..].
-      fold (body items gb (rsch src) rows).
       assert (PR : Forall prow rows) by exact (filter_rows_plain _ _ _ _ (IH2 src eq_refl) FR).
-      destruct (body items gb (rsch src) rows) as [rows1| |] eqn:EB; simpl; [|split; [reflexivity|discriminate]..].
-      assert (PR1 : Forall prow rows1) by exact (body_plain items gb (rsch src) rows rows1 Fi Fg PR EB).
-      set (outs := out_schema (rsch src) items).
-      set (rows2 := if dist then den_distinct rows1 else rows1).
+      destruct (sel_den (rsch src) items gb rows) as [r1| |] eqn:EB; simpl; [|split; [reflexivity|discriminate]..].
+      assert (PR1 : Forall prow (rrows r1)) by exact (sel_den_plain items gb (rsch src) rows r1 Fi Fg PR EB).
+      set (outs := rsch r1).
+      set (rows2 := if dist then den_distinct (rrows r1) else rrows r1).
       assert (PR2 : Forall prow rows2) by (unfold rows2; destruct dist; [apply den_distinct_plain|]; exact PR1).
       assert (FIN : F4 (mkrel outs rows2) =
                     obind (den_order outs ob rows2) (fun rows3 => obind (den_limit lim rows3) (fun rows4 => Ok (mkrel outs rows4)))).
@@ -1194,7 +1213,7 @@ Section Main.
   Qed.
 
   Lemma ctes_main defs : forall ctes, good_ctes ctes -> forallb (fun nq : name * query => frag_q (snd nq)) defs = true ->
-    exec_ctes false tables ctes defs = den_ctes tables ctes defs /\
+    exec_ctes false false tables ctes defs = den_ctes tables ctes defs /\
     forall c, den_ctes tables ctes defs = Ok c -> good_ctes c.
   Proof.
     induction defs as [|[n q] t IH]; intros ctes G F; simpl in *; [split; [reflexivity|intros c H; inv H; exact G]|].
@@ -1287,11 +1306,11 @@ Definition wit_table : db :=
   [([116], mkrel [(None, [97]); (None, [98])] [[VInt 1; VInt 10]; [VInt 1; VNull]; [VNull; VInt 5]; [VNull; VInt 7]; [VInt 2; VInt 3]])].
 (* SELECT a AS k FROM t GROUP BY a *)
 Definition wit_group_noagg : top :=
-  ([], Q false [IExpr (ECol None [97]) [107]] (STable [116] [116]) None [ECol None [97]] [] None).
+  ([], Q false [IExpr (ECol None [97]) (Some [107])] (STable [116] [116]) None [ECol None [97]] [] None).
 (* SELECT a AS k, count( * ) AS c, sum(b) AS s, avg(b) AS v, array_agg(b) AS l FROM t GROUP BY a ORDER BY k DESC *)
 Definition wit_group : top :=
-  ([], Q false [IExpr (ECol None [97]) [107]; IAgg ACount false (ELit (VBool true)) [99]; IAgg ASum false (ECol None [98]) [115];
-                IAgg AAvg false (ECol None [98]) [118]; IAgg AArr false (ECol None [98]) [108]]
+  ([], Q false [IExpr (ECol None [97]) (Some [107]); IAgg ACount false (ELit (VBool true)) (Some [99]); IAgg ASum false (ECol None [98]) (Some [115]);
+                IAgg AAvg false (ECol None [98]) (Some [118]); IAgg AArr false (ECol None [98]) (Some [108])]
          (STable [116] [116]) None [ECol None [97]] [(ECol None [107], true)] None).
 
 Lemma pinned_group_by_ignored :
@@ -1314,3 +1333,107 @@ Proof. vm_compute. discriminate. Qed.
 
 Lemma native_line_exact text : native_line text = text ++ [10].
 Proof. reflexivity. Qed.
+
+(* ------------------------------------------------------------------ the unique-name rule *)
+Lemma name_eqb_refl a : name_eqb a a = true.
+Proof. unfold name_eqb. induction a; simpl; [reflexivity|]. rewrite Z.eqb_refl. assumption. Qed.
+Lemma field_eqb_refl f : field_eqb f f = true.
+Proof. destruct f as [[q|] n]; unfold field_eqb; simpl; rewrite ?name_eqb_refl; reflexivity. Qed.
+Lemma field_eqb_neq a b : a <> b -> field_eqb a b = false.
+Proof. intro H. destruct (field_eqb a b) eqn:E; [|reflexivity]. apply field_eqb_eq in E. contradiction. Qed.
+
+Lemma cnt_get_set c f n g : cnt_get (cnt_set c f n) g = if field_eqb f g then Some n else cnt_get c g.
+Proof.
+  induction c as [|[k m] t IH]; simpl.
+  - reflexivity.
+  - destruct (field_eqb k f) eqn:E; simpl.
+    + apply field_eqb_eq in E. subst k. destruct (field_eqb f g); reflexivity.
+    + destruct (field_eqb k g) eqn:E2; [|exact IH].
+      apply field_eqb_eq in E2. subst k. rewrite field_eqb_neq; [reflexivity|].
+      intro H. subst. rewrite field_eqb_refl in E. discriminate.
+Qed.
+
+Definition used (c : counter) (f : field) : Prop := cnt_get c f <> None.
+
+Lemma uniq_fuel_spec fuel : forall c f f' c', uniq_fuel fuel c f = Ok (f', c') ->
+  ~ used c f' /\ used c' f' /\ (forall g, used c g -> used c' g).
+Proof.
+  induction fuel as [|fuel IH]; intros c f f' c' H; simpl in H; [discriminate|].
+  destruct (cnt_get c f) as [n|] eqn:G.
+  - destruct (IH _ _ _ _ H) as [A [B C]]. split; [|split].
+    + intro U. apply A. unfold used in *. rewrite cnt_get_set. destruct (field_eqb f f'); [discriminate|exact U].
+    + exact B.
+    + intros g U. apply C. unfold used in *. rewrite cnt_get_set. destruct (field_eqb f g); [discriminate|exact U].
+  - inv H. split; [|split].
+    + unfold used. rewrite G. auto.
+    + unfold used. rewrite cnt_get_set, field_eqb_refl. discriminate.
+    + intros g U. unfold used in *. rewrite cnt_get_set. destruct (field_eqb f' g); [discriminate|exact U].
+Qed.
+
+(* getUniqueName / the existingFields loop give pairwise different names, none of which was used before *)
+Theorem uniq_all_distinct l : forall c names, uniq_all false c l = Ok names ->
+  NoDup names /\ forall f, In f names -> ~ used c f.
+Proof.
+  induction l as [|f t IH]; intros c names H; [simpl in H; inv H; split; [constructor|intros ? []]|].
+  cbn [uniq_all uniq] in H.
+  destruct (uniq_fuel (S (length c)) c f) as [[f' c']| |] eqn:U; cbn [obind fst snd] in H; try discriminate.
+  destruct (uniq_all false c' t) as [r| |] eqn:R; cbn [obind] in H; inv H.
+  destruct (uniq_fuel_spec _ _ _ _ _ U) as [A [B C]]. destruct (IH _ _ R) as [ND NU]. split.
+  - constructor; [|exact ND]. intro I. exact (NU _ I B).
+  - intros g [<-|I]; [exact A|]. intro Ug. exact (NU _ I (C _ Ug)).
+Qed.
+
+Theorem out_schema_distinct src items outs : out_schema false src items = Ok outs -> NoDup outs.
+Proof.
+  unfold out_schema. destruct (map_candidates src items 0); simpl; try discriminate. intro H.
+  exact (proj1 (uniq_all_distinct _ _ _ H)).
+Qed.
+
+(* the code before the fixes repeats a name *)
+Lemma uniq_pinned_repeats : uniq_all true [] [(None, [120]); (None, [120]); (None, [120])] =
+  Ok [(None, [120]); (None, [120; 95; 49]); (None, [120; 95; 49])].
+Proof. vm_compute. reflexivity. Qed.
+
+(* SELECT count(b) AS c, sum(b) AS c, max(b) AS c FROM t GROUP BY a *)
+Definition wit_triple_group : top :=
+  ([], Q false [IAgg ACount false (ECol None [98]) (Some [99]); IAgg ASum false (ECol None [98]) (Some [99]);
+                IAgg AMax false (ECol None [98]) (Some [99])]
+         (STable [116] [116]) None [ECol None [97]] [] None).
+(* SELECT a AS x, b AS x, a AS x FROM t *)
+Definition wit_triple_map : top :=
+  ([], Q false [IExpr (ECol None [97]) (Some [120]); IExpr (ECol None [98]) (Some [120]); IExpr (ECol None [97]) (Some [120])]
+         (STable [116] [116]) None [] [] None).
+(* SELECT a, count(b), sum(b) AS count_b, t.a + 1 ... GROUP BY a  and  SELECT a, t.a, a + 1, t.*, b AS a FROM t *)
+Definition wit_names_group : top :=
+  ([], Q false [IExpr (ECol None [97]) None; IAgg ACount false (ECol None [98]) None;
+                IAgg ASum false (ECol None [98]) (Some [99; 111; 117; 110; 116; 95; 98]); IAgg ACount false (ELit (VBool true)) None]
+         (STable [116] [116]) None [ECol None [97]] [] None).
+Definition wit_names_map : top :=
+  ([], Q false [IExpr (ECol None [97]) None; IExpr (ECol (Some [116]) [97]) None; IExpr (EBin BAdd (ECol None [97]) (ELit (VInt 1))) None;
+                IQStar [116]; IExpr (ECol None [98]) (Some [97])]
+         (STable [116] [116]) None [] [] None).
+
+Lemma pinned_triple_group :
+  in_fragment wit_triple_group = true /\ plain_db wit_table = true /\
+  result_equivb false (exec_top_pinned_names wit_table wit_triple_group) (den_top wit_table wit_triple_group) = false /\
+  exists r, exec_top wit_table wit_triple_group = Ok r /\
+            printed_names (rsch r) = [[99]; [99; 95; 49]; [99; 95; 50]].
+Proof. repeat split; try (vm_compute; reflexivity). eexists. split; vm_compute; reflexivity. Qed.
+
+Lemma pinned_triple_map :
+  in_fragment wit_triple_map = true /\ plain_db wit_table = true /\
+  (exists r, exec_top_pinned_names wit_table wit_triple_map = Ok r /\ ~ NoDup (rsch r)) /\
+  (exists r, exec_top wit_table wit_triple_map = Ok r /\ printed_names (rsch r) = [[120]; [120; 95; 49]; [120; 95; 50]]).
+Proof.
+  repeat split; try (vm_compute; reflexivity).
+  - eexists. split; [vm_compute; reflexivity|]. intro N. inv N. inv H2. apply H3. left. reflexivity.
+  - eexists. split; vm_compute; reflexivity.
+Qed.
+
+Lemma wit_names_results :
+  in_fragment wit_names_group = true /\ in_fragment wit_names_map = true /\
+  (exists r, den_top wit_table wit_names_group = Ok r /\
+     printed_names (rsch r) = [[97]; [99; 111; 117; 110; 116; 95; 98]; [99; 111; 117; 110; 116; 95; 98; 95; 49]; [99; 111; 117; 110; 116]]) /\
+  (exists r, den_top wit_table wit_names_map = Ok r /\
+     printed_names (rsch r) = [[116; 46; 97]; [97; 95; 49]; [99; 111; 108; 95; 50]; [97; 95; 50]; [98]; [97]]).
+Proof. repeat split; try (vm_compute; reflexivity); eexists; split; vm_compute; reflexivity. Qed.
